@@ -602,6 +602,12 @@ func (ds *DataStoreSet) reloadIfNumberOfObjectsChanged(ctx context.Context) (err
 // which have to be removed.
 // It returns any error encountered.
 func (ds *DataStoreSet) updateDeltaCommentsOrDowntimes(ctx context.Context, name TableName) (err error) {
+	// serialize the whole diff: two updaters (the update loop and a client goroutine spinning the peer up or
+	// waiting for a condition) which both find the same new ids would both append them
+	if lockStore := ds.Get(name); lockStore != nil {
+		lockStore.updateLock.Lock()
+		defer lockStore.updateLock.Unlock()
+	}
 	changed, err := ds.maxIDOrSizeChanged(ctx, name)
 	if !changed || err != nil {
 		return err
